@@ -132,6 +132,7 @@ Lemma late_save_backup dm pn k m : late_only (save_backup dm pn k m).
 Proof.
   unfold save_backup. destruct (has_dotdot _); [apply late_mlift; intros e [= <-]; reflexivity|].
   apply late_mbind; [apply late_mop; intros x e [= <-]; reflexivity|].
+  intros _. apply late_mbind; [apply late_mop; intros x e; destruct x; [discriminate|intros [= <-]; reflexivity]|].
   intros _. apply late_mop; intros x e [= <-]; reflexivity.
 Qed.
 
@@ -142,7 +143,7 @@ Proof.
   apply late_mbind; [apply late_mlift; intros e H; exfalso; eapply ov_rollback_no_err; eassumption|].
   intros [ov' file]. apply late_mbind; [apply late_save_backup|]. intros _.
   apply late_mbind; [|intros; apply IH].
-  destruct (pf_rename _); [|apply late_mret]. destruct (pf_new _); [|apply late_mlift; discriminate].
+  destruct (pf_rename _); [|apply late_mret]. destruct (knew _); [|apply late_mlift; discriminate].
   destruct (ov_get _ _); [apply late_save_backup|apply late_mlift; discriminate].
 Qed.
 
@@ -435,7 +436,7 @@ Theorem backups_step dm ov s rest down_to :
    let '(ov', file) := r in
    dom _ <- save_backup dm (st_patch s) (st_target s) file;
    dom _ <- (if pf_rename (st_fp s) then
-               match pf_new (st_fp s) with
+               match knew (st_fp s) with
                | None => mlift RPanic
                | Some n => match ov_get n ov' with None => mlift RPanic | Some nf => save_backup dm (st_patch s) n nf end
                end
@@ -572,7 +573,7 @@ Qed.
 (* which name is patched: the old name iff it currently exists - in memory when it was touched
    before in this run (not deleted), otherwise on disk - else the new name *)
 Theorem choose_old_iff_exists fs ov fp o n :
-  pf_old fp = Some o -> pf_new fp = Some n -> o <> n -> has_dotdot o = false ->
+  kold fp = Some o -> knew fp = Some n -> o <> n -> has_dotdot o = false ->
   choose_filename fs ov fp =
   ROk (if match ov_get o ov with
           | Some m => negb (deleted m)
@@ -586,8 +587,8 @@ Proof.
 Qed.
 
 Theorem choose_single_name fs ov fp x :
-  (pf_old fp = Some x /\ pf_new fp = None) \/ (pf_old fp = None /\ pf_new fp = Some x) \/
-  (pf_old fp = Some x /\ pf_new fp = Some x) ->
+  (kold fp = Some x /\ knew fp = None) \/ (kold fp = None /\ knew fp = Some x) \/
+  (kold fp = Some x /\ knew fp = Some x) ->
   choose_filename fs ov fp = ROk x.
 Proof.
   unfold choose_filename. intros [[-> ->]|[[-> ->]|[-> ->]]]; try reflexivity.
